@@ -599,7 +599,13 @@ func genWithProfile(prop string, seed uint64, idx int, r *Rng, p Profile) *Scena
 	// keep the annual output date strictly before the end date inside the end year (else the model
 	// extends the run: known finding end_date_extension); a few cases keep the extension on purpose.
 	annualInEndYear := Date{sc.End.Y, sc.AnnualMonth, sc.AnnualDay}
-	if annualInEndYear.Zeit() >= sc.End.Zeit() && !(prop == "C05" && r.Bool(0.15)) {
+	// the daily state monitors (balances, bounds, crop state) also take 10 % of their cases with a prolonged run: the model
+	// simulates the days up to the day after the annual output date like any other day
+	keepLate := false
+	if rl := NewRng(mix(mix(seed, uint64(idx)), 1111)); (prop == "C01" || prop == "C02" || prop == "C06" || prop == "C07" || prop == "C08" || prop == "C09" || prop == "C19") && rl.Bool(0.1) {
+		keepLate = true
+	}
+	if annualInEndYear.Zeit() >= sc.End.Zeit() && !keepLate && !(prop == "C05" && r.Bool(0.15)) {
 		// move the end date behind the annual date
 		sc.End = annualInEndYear.AddDays(1 + r.Intn(20))
 		if sc.End.Y != endYear {
